@@ -455,11 +455,30 @@ func runDirect(cfg vhlib.Config, sum *vhlib.Summary, r *vhlib.Rng) {
 				hi = len(all)
 			}
 			var defs, expr string
-			if kind == "legacy" {
+			switch {
+			case kind == "legacy":
 				defs = "Definition file : list N := " + vhlib.CoqBytes(file) + ".\n" +
 					"Definition obs : list (mutation * list read_obs) := " + vhlib.CoqListNL(all[s*per:hi]) + ".\n"
 				expr = "check_muts file obs 1"
-			} else {
+			case kind == "chunks" && chunks != nil:
+				// + model self-check: where damage_guard holds the model's read is an error or the original
+				var ds, flips []string
+				for _, ch := range chunks {
+					ds = append(ds, vhlib.CoqBytes(file[ch.Off+12:ch.Off+12+ch.Len]))
+				}
+				lo := s * per
+				for mi := lo; mi < hi; mi++ {
+					if mi < len(muts) && muts[mi].Kind == "flip" {
+						flips = append(flips, fmt.Sprintf("(%d, %d)", muts[mi].K, muts[mi].V))
+					}
+				}
+				defs = "Definition ops : list wop := " + coqOps(ops) + ".\n" +
+					"Definition ds : list (list N) := " + vhlib.CoqList(ds) + ".\n" +
+					"Definition file : list N := " + vhlib.CoqBytes(file) + ".\n" +
+					"Definition flips : list (N * N) := " + vhlib.CoqList(flips) + ".\n" +
+					"Definition obs : list (mutation * list read_obs) := " + vhlib.CoqListNL(all[s*per:hi]) + ".\n"
+				expr = "check_ops_self ops ds file obs flips"
+			default:
 				defs = "Definition ops : list wop := " + coqOps(ops) + ".\n" +
 					"Definition file : list N := " + vhlib.CoqBytes(file) + ".\n" +
 					"Definition obs : list (mutation * list read_obs) := " + vhlib.CoqListNL(all[s*per:hi]) + ".\n"
@@ -942,11 +961,14 @@ func knownInput(m e2eMut, f storeFile, content []byte) string {
 func runE2E(cfg vhlib.Config, sum *vhlib.Summary, r *vhlib.Rng) {
 	base := filepath.Join(cfg.Out, "e2e")
 	nl := 8
+	if cfg.Thorough() {
+		nl = 12
+	}
 	lanes := make([]lane, nl)
 	var wg sync.WaitGroup
 	errs := make([]error, nl)
 	for i := range lanes {
-		lanes[i] = lane{dir: filepath.Join(base, fmt.Sprintf("lane%d", i))}
+		lanes[i] = lane{dir: filepath.Join(base, fmt.Sprintf("lane%02d", i))}
 		lanes[i].data = filepath.Join(lanes[i].dir, "data")
 		lanes[i].pristine = filepath.Join(lanes[i].dir, "pristine")
 		wg.Add(1)
